@@ -12,14 +12,14 @@ CHECKS = {
          "weakest fit (quantifier over inputs): frame values sampled; the simulation contributes frame-wise vs pre-assembled delivery with interleaved streams"),
  "C10": ("bussim", "3.C10", "N filtered listeners and one unfiltered listener on the same bus history, position-wise comparison against the permitted() predicate, configurations from a generator (numbers, ids in any case, mixed, claim PGN, duplicates, multi-definition ids, network map)",
          "exception of the unfiltered decoder counts as nothing returned"),
- "C11": ("bussim", "3.C11", "bus histories with claims / re-claims / shared NAMEs / claims inside fast-packet messages on a virtual wall clock across the 10-minute discovery boundary; reference source map; safety (R1-R3) and completeness (R4) per input and listener; one run in twelve is a client-level netsim session in which identities and the manufacturer filter must survive a reconnect",
+ "C11": ("bussim", "3.C11", "bus histories with claims / re-claims / shared NAMEs / claims inside fast-packet messages on a virtual wall clock across the 10-minute discovery boundary; reference source map; safety rules R1-R3 per input and listener (completeness is counted, not judged; the discovery window's length is measured on the tree, DESIGN 9.8); one run in twelve is a client-level netsim session in which identities and the manufacturer filter must survive a reconnect",
          "identity attributes from an isolated decode of the same claim frame, NAME computed independently; unknown manufacturers and unclaimed sources after the window only judged for R1"),
  "C12": ("netsim", "3.C12", "virtual-time asyncio simulation of each real client against a simulated gateway: seeded packet streams x arbitrary segmentation x callback failures/delays, callback sequence compared with a synchronous reference decode",
          "packet-aligned EByte streams; busy sentinel, >64 KiB lines and EOF excluded (C13)"),
- "C13": ("netsim", "3.C13", "fault scripts on the simulated gateway (refuse/fail xk, EOF, EOF mid-packet, reset, accept-then-EOF, garbage-then-EOF, busy sentinel, failing write, over-long lines, outages of > 1000 refusals) at planned points, sweep of a fault at every loop iteration after accept; status/attempt/heartbeat traces; bounded liveness 120 virtual s after the last fault; stall detection at the I/O seam",
-         "back-off bound looser than the code's; write fault = connection_lost(exc) scheduled by the failing write"),
+ "C13": ("netsim", "3.C13", "fault scripts on the simulated gateway (refuse/fail xk, EOF, EOF mid-packet, reset, accept-then-EOF, garbage-then-EOF, busy sentinel, failing write, over-long lines, outages of > 1000 refusals) at planned points, sweep of a fault at every loop iteration after accept; status/attempt/heartbeat traces; bounded liveness max(120 virtual s, 3 x the client's own longest retry wait) after the last fault; stall detection at the I/O seam",
+         "no number of the implementation is used: 'capped' = never above 3600 s, 'growing' = fifth delay >= 1.2 x first, 'never zero' = >= 10 ms (DESIGN 9.8); write fault = connection_lost(exc) scheduled by the failing write"),
  "C14": ("netsim", "3.C14", "close()/connect()/send() injected at arbitrary loop iterations and virtual times of every session shape (also from inside the status and receive callbacks), sweep of close() at every iteration of base sessions; state sampled every iteration; gateway-side observations; task life-times; double execution for raising status callbacks",
-         "an in-flight attempt may complete if shut within 5 virtual s and never reported; tasks done within 45 virtual s"),
+         "an in-flight attempt may complete if shut within 5 virtual s and never reported; 'tasks finish' judged by continuing the simulation to quiescence, no deadline (DESIGN 9.8)"),
  "C15": ("bussim", "3.C15", "dump file behind an in-memory file-system seam over bus histories with dump/PGN filter configurations; per-message JSON monitor (validity, from_json equivalence, re-encoding) over all 418 definitions with boundary-biased payloads",
          "dump ids offered in database case; no write faults; JSON half is input-sampled"),
  "C16": ("bussim", "3.C16", "interleaved multi-instance operation histories with junk inputs executed in forked children and compared with solo replays in pristine processes (I1), junk-free runs (I2), fresh-decoder probes (I3), configuration/encoder-counter checks (I4) and double execution (I5)",
